@@ -43,8 +43,14 @@ PastEpochsX(t, byid) ==
         \A i \in DOMAIN byid : \A j \in DOMAIN t.seen : t.seen[j].id = byid[i].id => t.seen[j].start = byid[i].start>> >>
 \* the admin re-configures the clock (C20: "the configured duration"; design rule: the configuration is the specification's
 \* own - the duration in force is the one the last accepted update SET)
-ReconfigNext(s, d) == [s EXCEPT !.dur = d, !.anchor = [id |-> s.id, start |-> s.start]]
+\* The distributor's message carries a genesis time too.  Before its first epoch that is the time the first epoch will
+\* start at; once an epoch exists it says nothing any more - the next epoch starts where the current one ends.
 ReconfigDur(ev) == ev.args.dur
+Reconfigured(s0, s, ev) ==
+  IF s.kind # "manager" /\ s.id = Zero
+  THEN [s0 EXCEPT !.dur = ReconfigDur(ev), !.genesis = ev.args.genesis, !.anchor = [id |-> One, start |-> ev.args.genesis]]
+  ELSE [s0 EXCEPT !.dur = ReconfigDur(ev), !.anchor = [id |-> s.id, start |-> s.start]]
+ReconfigNext(s, ev) == Reconfigured(s, s, ev)
 EvChecks(ev, t) ==
   (CASE ev.ev = "create" ->
           IF ev.res = "ok" THEN CreateChecks(st) \o ObsChecks(CreateNext(st), t)
@@ -52,7 +58,7 @@ EvChecks(ev, t) ==
      [] ev.ev = "tick" -> ObsChecks(TickNext(st, ev.args.to), t)
      [] ev.ev = "reconfig" ->
           IF ev.res = "ok"
-          THEN << <<"C16.config.admin-only", ev.actor = "owner">> >> \o ObsChecks(ReconfigNext(st, ReconfigDur(ev)), t)
+          THEN << <<"C16.config.admin-only", ev.actor = "owner">> >> \o ObsChecks(ReconfigNext(st, ev), t)
           ELSE Unchanged(ev, t) \o << <<"C16.config.by-admin-rejected", ev.actor # "owner">> >>
      [] ev.ev = "addhook" ->
           IF ev.res = "ok"
@@ -77,7 +83,7 @@ Next ==
        IF ev.ev = "reset" THEN Report(ev, Failed(ClockChecks(StOf(ev.cfg, ev.obs)) \o ByIdChecks(StOf(ev.cfg, ev.obs), ev.obs.byid))) /\ st' = StOf(ev.cfg, ev.obs)
        ELSE LET t0 == StOf(st, ev.obs)
                 t == IF ev.ev = "reconfig" /\ ev.res = "ok"
-                     THEN [t0 EXCEPT !.dur = ReconfigDur(ev), !.anchor = [id |-> st.id, start |-> st.start]] ELSE t0
+                     THEN Reconfigured(t0, st, ev) ELSE t0
             IN Report(ev, Failed(EvChecks(ev, t))) /\ st' = t
   /\ l' = l + 1
 Spec == Init /\ [][Next]_vars
